@@ -281,3 +281,21 @@ mut("e14-makecircle-box-centre", ["C13"], "circle.go",
     "\t\tx := center.X + lons*math.Cos(radians)",
     "\t\tx := (minX+maxX)/2 + lons*math.Cos(radians)",
     "E14.circle", note="ellipse centred on the middle of the cardinal points instead of the centre")
+
+# ---------------- rules added after the third round of seeded changes ----------------
+mut("e9-layout-extra-byte", ["C04"], "geometry/qtree.go",
+    "\tdst = append(dst, 1)\n\t// first make the address space",
+    "\tdst = append(dst, 1, 0)\n\t// first make the address space",
+    "E9.I1", note="the writer emits a byte the reader does not expect", sentinel=False)
+mut("e9-width-count-uncovered", ["C04"], "geometry/qtree.go",
+    "\tibytes := numBytes(uint32(len(n.items)))\n",
+    "\tvar ibytes byte = 1\n",
+    "E9.I3w", note="the item count does not take part in choosing the shared width")
+mut("e12-holes-early-accept", ["C01"], "geometry/poly.go",
+    "\tcontains := true\n\tfor _, hole := range poly.Holes {\n\t\tif ringContainsPoint(hole, point, false).hit {",
+    "\tcontains := true\n\tif len(poly.Holes) > 8 {\n\t\treturn true\n\t}\n\tfor _, hole := range poly.Holes {\n\t\tif ringContainsPoint(hole, point, false).hit {",
+    "E12.holes", note="polygons with many holes are answered from the exterior alone")
+mut("e12-cyclic-seam", ["C12", "C18"], "geometry/series.go",
+    "\t\t\tb = points[0]\n\t\t\tc = points[1]",
+    "\t\t\tb = points[0]\n\t\t\tc = points[0]",
+    "E12.cyclic", note="the last triple repeats the first point")
